@@ -169,8 +169,8 @@ def build_timespan(days=0, hours=0, minutes=0, seconds=0,
     :argType seconds: integer
     :arg milliseconds: number of microseconds in timespan, 0 by default
     :argType milliseconds: integer
-    :arg microsecond: number of microseconds in timespan, 0 by default
-    :argType microsecond: integer
+    :arg microseconds: number of microseconds in timespan, 0 by default
+    :argType microseconds: integer
     :returnType: timespan object
 
     .. code::
